@@ -89,7 +89,7 @@ func drawC09(rt *rapid.T) C09Spec {
 	}
 	nd := rapid.IntRange(0, 4).Draw(rt, "ndeltas")
 	for i := 0; i < nd; i++ {
-		s.Deltas = append(s.Deltas, rapid.SampledFrom([]int{0, 0, 1, 3600, 86400 * 30}).Draw(rt, "delta"))
+		s.Deltas = append(s.Deltas, rapid.SampledFrom([]int{0, 0, 1, 3600, 86400 * 30, -3600, -86400 * 400}).Draw(rt, "delta"))
 	}
 	return s
 }
@@ -133,9 +133,15 @@ func execC09Bubble(r *kernel.Run, s C09Spec) {
 	kernel.SeedLibrary(r.T, s.LibSeed)
 	key := kernel.GetKey(s.Key)
 	pk := key.Pk
-	delta := func(i int) {
+	// delta advances the simulated clock before the authority's next signing; a negative entry is an
+	// authority whose clock was stepped back: the returned offset is applied to what it signs next
+	delta := func(i int) int64 {
 		if len(s.Deltas) > 0 {
 			d := s.Deltas[i%len(s.Deltas)]
+			if d < 0 {
+				r.Fault("clock:step-back")
+				return int64(d)
+			}
 			time.Sleep(time.Duration(d) * time.Second)
 			r.SimTime(float64(d))
 			if d == 0 {
@@ -144,11 +150,19 @@ func execC09Bubble(r *kernel.Run, s C09Spec) {
 				r.Fault("clock:jump")
 			}
 		}
+		return 0
 	}
 
 	ra, err := kernel.NewRevAuthority(key)
 	if err != nil {
 		panic(err)
+	}
+	stepBack := func(i int, off int64) {
+		if off != 0 {
+			if err := ra.PinTime(i, time.Now().Unix()+off); err != nil {
+				panic(err)
+			}
+		}
 	}
 	// timeline: issue witnesses against head, then revoke
 	wits := make([]*revocation.Witness, len(s.Wits))
@@ -165,7 +179,7 @@ func execC09Bubble(r *kernel.Run, s C09Spec) {
 		if idx == s.NRev {
 			break
 		}
-		delta(idx)
+		off := delta(idx)
 		var victim *revocation.Witness
 		for i, ws := range s.Wits {
 			if ws.RevokedAt == idx+1 && wits[i] != nil {
@@ -184,6 +198,7 @@ func execC09Bubble(r *kernel.Run, s C09Spec) {
 		if err := ra.Revoke(e.E); err != nil {
 			panic(err)
 		}
+		stepBack(ra.Head(), off)
 	}
 	// model state per witness
 	type mstate struct {
@@ -212,10 +227,11 @@ func execC09Bubble(r *kernel.Run, s C09Spec) {
 	build := func(k int, st, t int) *revocation.Update {
 		us := s.Upds[k]
 		if us.Refresh {
-			delta(k)
+			off := delta(k)
 			if err := ra.Resign(t); err != nil {
 				panic(err)
 			}
+			stepBack(t, off)
 			r.Fault("resign-same-index")
 		}
 		u, err := ra.Update(st, t)
